@@ -35,6 +35,19 @@ NICV1 = {(5, 0): (11, 7.5, 11), (6, 0): (10, 25, 37.5), (7, 1): (9, 75, 112), (7
          (20, 0): (11, 7.5, 11), (21, 0): (10, 25, 37.5), (22, 0): (0, None, None)}
 
 
+# DO-260B Table 2-70 / A-2x: NIC by type code and supplements (A, B) airborne or (A, C) surface; key = A*2 + B/C
+NICV2 = {5: {None: 11}, 6: {None: 10}, 7: {2: 9, 0: 8}, 8: {3: 7, 2: 6, 1: 6, 0: 0}, 9: {None: 11}, 10: {None: 10}, 11: {3: 9, 0: 8},
+         12: {None: 7}, 13: {0: 6, 1: 6, 3: 6}, 14: {None: 5}, 15: {None: 4}, 16: {3: 3, 0: 2}, 17: {None: 1}, 18: {None: 0},
+         20: {None: 11}, 21: {None: 10}, 22: {None: 0}}
+
+
+def pred_nicv2(real_out, nic):
+    """a defined (TC, supplement) combination returns its DO-260B NIC (the containment radius is compared with the model only)"""
+    if real_out in ("RE", "EXC"):
+        return False, "NIC %d" % nic
+    return real_out.split("|")[0] == str(nic), "NIC %d" % nic
+
+
 def o(x):
     return "None" if x is None else fr(F(repr(x)) if isinstance(x, float) else F(x))
 
@@ -214,4 +227,8 @@ def cases(ctx):
                 yield dict(op="nic_v1 %s %d" % (m, s), real=(A + "nic_v1", [m, s]), expect=e, tag="nicv1", info=info)
             for a_ in (0, 1):
                 for bc in (0, 1):
-                    yield dict(op="nic_v2 %s %d %d" % (m, a_, bc), real=(A + "nic_v2", [m, a_, bc]), tag="nicv2", info=info)
+                    row = NICV2[tc]
+                    # single-NIC type codes define only the supplement combination 0
+                    nic = (row[None] if a_ * 2 + bc == 0 else None) if None in row else row.get(a_ * 2 + bc)
+                    yield dict(op="nic_v2 %s %d %d" % (m, a_, bc), real=(A + "nic_v2", [m, a_, bc]),
+                               pred=["pred_nicv2", nic] if nic is not None else None, tag="nicv2", info=info, trivial=nic is None)
